@@ -66,6 +66,21 @@ class C10(scen.WorldProp):
                 t = rng.uniform(t0, end - 1)
                 events.append(call(t, rng.choice([GO, BOB, SINGLE, THATS_ALL, ROUNDS, STAND, LOOK_TO, GO, BOB])))
                 faults += 1
+            if rng.random() < 0.3:
+                # calls made while Wheatley is idle (before Look To): they must not poison the touch
+                for _ in range(rng.randint(1, 3)):
+                    events.append(call(rng.uniform(1000.02, max(1000.03, t0 - 0.01)),
+                                       rng.choice([GO, GO, BOB, SINGLE, THATS_ALL, ROUNDS, STAND])))
+                    faults += 1
+            if rng.random() < 0.25:
+                # the touch is stood and another one started in the same session
+                t_st = rng.uniform(t0 + 3, t0 + 3 + 8 * row_t)
+                t_again = t_st + rng.uniform(2.5, 5) * row_t
+                events += [call(t_st, STAND), [t_again - 0.2, "msg", {"m": "global_state", "state": [True] * N}],
+                           call(t_again, LOOK_TO)]
+                if not udi and rng.random() < 0.8:
+                    events.append(call(t_again + 3 + rng.uniform(0, 3) * row_t, GO))
+                faults += 1
             for _ in range(rng.choice([0, 0, 1, 3])):
                 t = rng.uniform(t0 - 0.5, end - 1)
                 events.append([t, "msg", rng.choice([
@@ -77,6 +92,7 @@ class C10(scen.WorldProp):
                 t = rng.uniform(t0 - 0.5, end - 1)
                 events.append([t, "msg", {"m": "size_change", "size": rng.choice([4, 5, 6, 8, 10, 12])}])
                 faults += 1
+            events.sort(key=lambda e: e[0])
             sc = {"start": 1000.0, "end": end, "tower_size": N, "events": events,
                   "on_join": scen.humans_on_join(humans),
                   "bot": scen.bot_cfg(spec, up_down_in=udi, stop_at_rounds=rng.random() < 0.2),
